@@ -187,6 +187,10 @@ def gen(rng, cfg, tier='quick'):
         a = {'x': rng.randrange(1 << 20), 'y': rng.randrange(1 << 20)}
         if r < 0.25:
             a['order'] = rng.choice((2, 3, 4, 5, 7, 8, 9, 11, 16, 25, 27, 101, 256, 65537, 2 ** 31 - 1))
+            if rng.random() < 0.35:
+                # prime powers with a large characteristic (mpyc factors the order by taking roots, not by trial
+                # division, when p > 2^10) and every shape of degree: prime, power of two, composite
+                a['order'] = rng.choice((1031, 1033, 2053)) ** rng.choice((2, 3, 4, 5, 6, 6, 8, 9, 10, 12))
         elif r < 0.4:
             a['modulus_prime'] = rng.choice((2, 3, 5, 7, 11, 13, 101, 257, 2 ** 61 - 1))
         elif r < 0.5:
